@@ -3,7 +3,7 @@ from __future__ import annotations
 
 import ast
 
-from ..astu import U, S, has, walk_shallow, call_name, calls_in, kwarg, names_in, monomial
+from ..astu import U, S, has, same, walk_shallow, call_name, calls_in, kwarg, names_in, monomial, linform
 from ..cfg import build
 from ..core import AnalysisError, Mutant, Rule, Twin
 from ..idioms import target_names
@@ -13,7 +13,7 @@ EQ = "chempy/equilibria.py"
 EQS = "chempy/_eqsys.py"
 ENGINES = ["E0 core", "E3 cfg"]
 TECHNIQUE = "def-use dataflow of the returned vector into the sanity flag; CFG check that `return True` of _result_is_sane is reachable only through the false edge of an un-weakened existential test (ast)"
-CLAIM = ("Decides: the sanity flag returned by root/_solve/roots is _result_is_sane applied to the very vector returned and to the initial "
+CLAIM = ("Decides (besides the precipitation switching conditions, dissolved() and the scalar bracketing solver's residual/result forms): the sanity flag returned by root/_solve/roots is _result_is_sane applied to the very vector returned and to the initial "
          "concentrations that parameterised the solve; _result_is_sane returns True only when neither 'some component negative' nor 'some "
          "component above upper bound*(1+rtol)' holds, with existential quantifiers; a failed solve is surfaced by a warning; EqCalcResult "
          "stores concentrations, info and sanity from one _solve call.")
@@ -180,10 +180,74 @@ def r3_failure_surfaced(ctx):
     ctx.check(has(fn, "getattr(self, k)[index] = _get(k)") and has(fn, "if k == 'sane': continue"), a, "info-stored", "info keys (success, nfev, ...) must be stored per index, `sane` excluded from overwriting", node=fn)
 
 
+def r4_precipitation(ctx):
+    """switching conditions of a sparingly soluble phase are mirror images; dissolved() removes the solid stoichiometrically"""
+    fw = ctx.func(EQ, "EqSystem._fw_cond_factory.fw_cond")
+    a = EQ + ":EqSystem._fw_cond_factory.fw_cond"
+    arms = {}
+    node = [s for s in fw.body if isinstance(s, ast.If)]
+    node = node[0] if node else None
+    while isinstance(node, ast.If):
+        arms[S(node.test)] = node.body[0]
+        node = node.orelse[0] if len(node.orelse) == 1 and isinstance(node.orelse[0], ast.If) else (node.orelse[0] if node.orelse else None)
+        if not isinstance(node, ast.If):
+            arms["else"] = node
+            break
+    pos, neg = arms.get("precip_stoich_coeff>0"), arms.get("precip_stoich_coeff<0")
+    ok = isinstance(pos, ast.Return) and isinstance(neg, ast.Return) and same(pos.value, "q * (1 + rtol) < k", scope=fw) and same(neg.value, "q > k * (1 + rtol)", scope=fw)
+    ctx.check(ok, a, "mirror-conditions", "solid as product: precipitate when Q*(1+rtol) < K; solid as reactant: when Q > K*(1+rtol); found %s / %s" % (
+        U(pos) if pos is not None else None, U(neg) if neg is not None else None), node=fw)
+    ctx.check(isinstance(arms.get("else"), ast.Raise), a, "zero-coefficient-raises", "a zero precipitate coefficient must raise", node=fw)
+    ctx.check(has(fw, "q = rxn.Q(self.substances, self.dissolved(x))") and has(fw, "k = rxn.equilibrium_constant()") and has(fw, "rxn.precipitate_stoich(self.substances)[1:3]"), a, "Q-of-dissolved-state",
+              "Q must be evaluated on the dissolved state and compared with the reaction's own constant", node=fw)
+    bw = ctx.func(EQ, "EqSystem._bw_cond_factory.bw_cond")
+    ctx.check(has(bw, "precipitate_idx = rxn.precipitate_stoich(self.substances)[2]") and has(bw, "if x[precipitate_idx] < small: return False else: return True"), EQ + ":EqSystem._bw_cond_factory.bw_cond", "solid-absent-below-small",
+              "the solid is considered absent iff its own amount is below `small`", node=bw)
+    ds = ctx.func(EQ, "EqSystem.dissolved")
+    ok = False
+    for n in walk_shallow(ds):
+        if isinstance(n, ast.AugAssign) and isinstance(n.op, ast.Sub):
+            c, p = monomial(n.value)
+            ok = c == 1 and p == {"new_concs[s_idx]": {"1": 1}, "s_stoich": {"1": -1}, "net_stoich": {"1": 1}} and U(n.target) == "new_concs"
+    ctx.check(ok, EQ + ":EqSystem.dissolved", "solid-removed-stoichiometrically", "dissolved() must subtract (amount of solid / its coefficient) * net stoichiometry", node=ds)
+    ctx.check(has(ds, "s_net, s_stoich, s_idx = r.precipitate_stoich(self.substances)") and has(ds, "net_stoich = np.asarray(r.net_stoich(self.substances))") and has(ds, "if r.has_precipitates(self.substances):"), EQ + ":EqSystem.dissolved",
+              "own-reaction-stoichiometry", "coefficient, index and net stoichiometry must come from the same reaction", node=ds)
+    ps = ctx.func("chempy/chemistry.py", "Reaction.precipitate_stoich")
+    ctx.check(has(ps, "return net, net[found1], found1") and has(ps, "net = self._xprecipitate_stoich(substances, True)"), "chempy/chemistry.py:Reaction.precipitate_stoich", "(net, coefficient, index)", "precipitate_stoich must return (net, coefficient of the solid, its index)", node=ps)
+    nr = ctx.func(EQ, "EqSystem.non_precip_rids")
+    ctx.check(has(nr, "for idx, precip in zip(self.phase_transfer_reaction_idxs(), precipitates) if not precip"), EQ + ":EqSystem.non_precip_rids", "absent-solids", "non_precip_rids must list the phase-transfer reactions whose solid is absent", node=nr)
+
+
+def r5_scalar_solver(ctx):
+    """bracketing scalar solver: residual K - Q along the reaction coordinate, result on the same coordinate"""
+    SE = "chempy/_equilibrium.py"
+    er = ctx.func(SE, "equilibrium_residual")
+    a = SE + ":equilibrium_residual"
+    ret = [n for n in walk_shallow(er) if isinstance(n, ast.Return)][-1]
+    ctx.check(linform(ret.value) == {"K": 1, "Q": -1}, a, "K-Q", "the residual must be K - Q; found %s" % U(ret.value), node=ret)
+    ctx.check(has(er, "c = c0 + stoich * rc") and has(er, "Q = equilibrium_quotient(c, stoich)"), a, "c=c0+nu*rc", "concentrations along the coordinate must be c0 + stoich*rc and Q their quotient with the same stoichiometry", node=er)
+    ctx.check(has(er, "if activity_product is not None: Q *= activity_product(c)"), a, "activity-product", "the activity product must multiply Q", node=er)
+    sv = ctx.func(SE, "solve_equilibrium")
+    ret = [n for n in walk_shallow(sv) if isinstance(n, ast.Return)][-1]
+    c, p = monomial(ast.parse("x", mode="eval").body)
+    lf = linform(ret.value)
+    ok = set(lf) == {"c0", "rc * stoich"} or set(lf) == {"c0", "stoich * rc"}
+    ctx.check(ok and all(v == 1 for v in lf.values()) and has(sv, "rc = _solve_equilibrium_coord(c0, stoich, K, activity_product)"), SE + ":solve_equilibrium", "c0+rc*nu",
+              "the result must be c0 + rc * stoich for the solved coordinate; found %s" % U(ret.value), node=ret)
+    co = ctx.func(SE, "_solve_equilibrium_coord")
+    ctx.check(has(co, "brentq(equilibrium_residual, lower, upper, (c0_m, stoich_m, K, activity_product))") and has(co, "lower, upper = _get_rc_interval(stoich_m, c0_m)") and has(co, "mask, = np.nonzero(stoich)"),
+              SE + ":_solve_equilibrium_coord", "bracket", "brentq must bracket the residual on the interval of the participating species", node=co)
+    iv = ctx.func(SE, "_get_rc_interval")
+    ctx.check(has(iv, "limits = c0 / stoich") and has(iv, "upper = -np.max(limits[np.argwhere(limits < 0)])") and has(iv, "lower = -np.min(limits[np.argwhere(limits > 0)])") and has(iv, "return lower, upper"), SE + ":_get_rc_interval",
+              "interval", "the coordinate interval must be [-min positive c0/nu, -max negative c0/nu]", node=iv)
+
+
 RULES = [
     Rule("C08-R1", r1_flag_dataflow, 12, "sanity flag = check(returned vector, same initial concentrations) in root/_solve/roots"),
     Rule("C08-R2", r2_sanity_test, 6, "_result_is_sane: existential tests, True only when neither holds"),
     Rule("C08-R3", r3_failure_surfaced, 7, "failed solve warns; EqCalcResult stores one call's results"),
+    Rule("C08-R4", r4_precipitation, 8, "precipitation switching conditions mirror each other; dissolved() stoichiometric"),
+    Rule("C08-R5", r5_scalar_solver, 6, "scalar solver: residual K-Q along c0+nu*rc, result on the same coordinate"),
 ]
 
 MUTANTS = [
@@ -198,6 +262,15 @@ MUTANTS = [
     Mutant("roots-check-other-inits", [(EQ, "sanity = [self._result_is_sane(init_concs, x) for x in xvecs]", "sanity = [self._result_is_sane(x0, x) for x in xvecs]")], "C08-R1", "roots"),
     Mutant("warn-removed", [(EQ, '        if not sol["success"]:\n            warnings.warn("Root finding indicated as failed by solver.")\n', "")], "C08-R3", "warns"),
     Mutant("result-sane-wrong-index", [(EQS, "self.sane[index] = sane", "self.sane[index[::-1]] = sane")], "C08-R3", "one-solve"),
+]
+
+SE = "chempy/_equilibrium.py"
+MUTANTS += [
+    Mutant("fw-cond-same-direction", [(EQ, "                return q > k * (1 + rtol)", "                return q * (1 + rtol) < k")], "C08-R4", "mirror"),
+    Mutant("bw-cond-inverted", [(EQ, "            if x[precipitate_idx] < small:\n                return False\n            else:\n                return True", "            if x[precipitate_idx] < small:\n                return True\n            else:\n                return False")], "C08-R4", "solid-absent"),
+    Mutant("dissolved-multiplies", [(EQ, "new_concs -= new_concs[s_idx] / s_stoich * net_stoich", "new_concs -= new_concs[s_idx] * s_stoich * net_stoich")], "C08-R4", "stoichiometrically"),
+    Mutant("residual-Q-minus-K-ok-but-sum", [(SE, "    return K - Q", "    return K + Q")], "C08-R5", "K-Q"),
+    Mutant("result-other-sign", [(SE, "    return c0 + rc * stoich", "    return c0 - rc * stoich")], "C08-R5", "c0+rc"),
 ]
 
 TWINS = [
